@@ -1,14 +1,15 @@
 (* C09 — split partitions and join concatenates events without loss or
    reordering.  Property theorems only; each is closed by [exact] of a lemma
-   proved in Proofs/C09_split.v, Proofs/C09_join.v, Proofs/C09_joinsplit.v or
-   Common/PyList.v and followed by Print Assumptions.
+   proved in Proofs/C09_split.v, Proofs/C09_join.v, Proofs/C09_joinsplit.v,
+   Proofs/C09_more.v or Common/PyList.v and followed by Print Assumptions.
 
    [join_fixed] is the join of dclab after fixes_proposed/C09-join-sort-and-
    prune.diff, [join_orig] the code before it (kept executable so that its
    defects stay replayable witnesses). *)
 From Coq Require Import ZArith List Bool Permutation Sorted.
 From Verif Require Import Common.ListIdx Common.PyList Model.C09.
-From Verif Require Import Proofs.C09_split Proofs.C09_join Proofs.C09_joinsplit.
+From Verif Require Import Proofs.C09_split Proofs.C09_join Proofs.C09_joinsplit
+  Proofs.C09_more.
 Import ListNotations.
 Open Scope Z_scope.
 
@@ -157,6 +158,28 @@ Theorem C09_join_total :
     exists j, join_fixed inputs = Ok j.
 Proof. exact join_fixed_total. Qed.
 Print Assumptions C09_join_total.
+
+(* Acquisition times never decrease along the processing order: the time and
+   frame offsets are never negative and never decrease from one input to the
+   next (time and frame are made continuous). *)
+Theorem C09_join_offsets_monotone :
+  forall inputs : list meas,
+    StronglySorted (fun a b => acq_time8 a <= acq_time8 b)
+                   (map snd (sorted_gen leb_num inputs)).
+Proof. exact join_offsets_monotone. Qed.
+Print Assumptions C09_join_offsets_monotone.
+
+(* index_online (non-negative, strictly increasing in every input) is
+   non-negative and strictly increasing in the joined file. *)
+Theorem C09_join_index_online_increasing :
+  forall (inputs : list meas) (j : joined) (f : Z) (c : list Z),
+    join_fixed inputs = Ok j ->
+    In f (j_feats j) -> kind f = 3 ->
+    (forall m, In m inputs -> incr_from (-1) (getcol f m) = true) ->
+    lookup_col f (j_cols j) = Some c ->
+    incr_from (-1) c = true.
+Proof. exact join_index_online_increasing. Qed.
+Print Assumptions C09_join_index_online_increasing.
 
 (* The logs and the configuration of every source are retained. *)
 Theorem C09_join_logs_retained :
